@@ -35,7 +35,7 @@ pub enum LuaClass {
 
 #[derive(Clone, Debug, Serialize, Deserialize)]
 pub struct FileSpec {
-    /// `.luarc.json`, `.emmyrc.json` or `.emmyrc.lua` (each file lives in its own sub directory)
+    /// `.luarc.json`, `.emmyrc.json` or `.emmyrc.lua` (on disk the name gets a per-file prefix)
     pub name: String,
     pub body: Body,
     pub lua: Option<LuaClass>,
@@ -60,6 +60,12 @@ pub struct C31;
 
 pub struct Local {
     dir: PathBuf,
+}
+
+impl Drop for Local {
+    fn drop(&mut self) {
+        let _ = std::fs::remove_dir_all(&self.dir);
+    }
 }
 
 // ---------------------------------------------------------------------------------------------
@@ -132,20 +138,30 @@ fn setting_entry(s: Setting, dup: bool) -> Entry {
 
 /// entries of one JSON object: well-typed settings (odd paths), wrong-typed values, value/prefix collisions, junk keys
 fn entries() -> BoxedStrategy<Vec<Entry>> {
-    entries_depth(200)
+    // half of the objects are "clean" (well-typed settings only, odd path strings): a single junk value makes the whole
+    // configuration fall back to defaults, which would hide the path strings from the pre-processor
+    prop_oneof![1 => entries_depth(200), 1 => clean_entries()].boxed()
+}
+
+fn well_typed() -> BoxedStrategy<Setting> {
+    let nk = KEYS.len();
+    let pk: Vec<usize> = KEYS.iter().enumerate().filter(|(_, k)| matches!(k.kind, configs::Kind::PathArr | configs::Kind::PathItemArr)).map(|(i, _)| i).collect();
+    prop_oneof![
+        2 => (0..nk).prop_flat_map(|ki| configs::setting_of(ki, configs::odd_path(), true)),
+        3 => (0..pk.len()).prop_flat_map(move |i| configs::setting_of(pk[i], configs::odd_path(), true)),
+    ]
+    .boxed()
+}
+
+fn clean_entries() -> BoxedStrategy<Vec<Entry>> {
+    proptest::collection::vec((well_typed(), proptest::bool::weighted(0.03)), 1..5).prop_map(|v| v.into_iter().map(|(s, dup)| setting_entry(s, dup)).collect()).boxed()
 }
 
 /// `max_depth`: bound of the deep-nesting class (client partial configs travel as JSON values inside the case, whose
 /// own (de)serialisation has serde_json's recursion limit of 128)
 fn entries_depth(max_depth: usize) -> BoxedStrategy<Vec<Entry>> {
     let nk = KEYS.len();
-    // keys whose values are pre-processed paths are over-weighted
-    let path_keys: Vec<usize> = KEYS.iter().enumerate().filter(|(_, k)| matches!(k.kind, configs::Kind::PathArr | configs::Kind::PathItemArr)).map(|(i, _)| i).collect();
-    let pk = path_keys.clone();
-    let well = prop_oneof![
-        2 => (0..nk).prop_flat_map(|ki| configs::setting_of(ki, configs::odd_path(), true)),
-        3 => (0..pk.len()).prop_flat_map(move |i| configs::setting_of(pk[i], configs::odd_path(), true)),
-    ];
+    let well = well_typed();
     let one = prop_oneof![
         5 => (well.clone(), proptest::bool::weighted(0.05)).prop_map(|(s, dup)| vec![setting_entry(s, dup)]),
         // wrong-typed value under a real key
@@ -374,7 +390,7 @@ impl Property for C31 {
         "C31"
     }
     fn rule(&self) -> String {
-        "cases = 1-3 config files (.emmyrc.json/.luarc.json/.emmyrc.lua, each in its own directory on disk) + 0-2 client partial configs + a workspace root; JSON text over the schema.json key space in dotted/nested spellings with odd path strings, wrong-typed values, value/prefix collisions, junk/empty keys, duplicate keys, deep nesting, non-object roots, mutated (invalid) text, BOM, invalid UTF-8, missing files, directories; Lua sources: valid tables, raising, non-table results, odd tables, and (rare, separate class) non-terminating loops; judged: load_configs + pre_process_emmyrc + serialisation return without panic, and load(all files) == load(files minus the known-invalid ones); non-trivial = the case has a value/prefix collision, a value the Emmyrc type rejects, or a path string that starts with `~` (before or after env expansion); distinct = distinct case digest".into()
+        "cases = 1-3 config files (.emmyrc.json/.luarc.json/.emmyrc.lua, written to disk) + 0-2 client partial configs + a workspace root; JSON text over the schema.json key space in dotted/nested spellings with odd path strings, wrong-typed values, value/prefix collisions, junk/empty keys, duplicate keys, deep nesting, non-object roots, mutated (invalid) text, BOM, invalid UTF-8, missing files, directories; Lua sources: valid tables, raising, non-table results, odd tables, and (rare, separate class) non-terminating loops; judged: load_configs + pre_process_emmyrc + serialisation return without panic, and load(all files) == load(files minus the known-invalid ones); non-trivial = the case has a value/prefix collision, a value the Emmyrc type rejects, or a path string that starts with `~` (before or after env expansion); distinct = distinct case digest".into()
     }
     fn assumptions(&self) -> Vec<String> {
         vec![
@@ -384,7 +400,7 @@ impl Property for C31 {
         ]
     }
     fn cases(&self, tier: Tier) -> u32 {
-        tier.pick(20_000, 2_000_000)
+        tier.pick(12_000, 2_000_000)
     }
     fn isolated(&self) -> bool {
         true
@@ -405,7 +421,10 @@ impl Property for C31 {
     fn strategy(&self, _tier: Tier) -> BoxedStrategy<Case> {
         let normal = (proptest::collection::vec(any_file(), 1..4), proptest::collection::vec(entries_depth(100).prop_map(|es| entries_object(&es)), 0..3), 0u8..12)
             .prop_map(|(files, partials, root)| Case { files, partials: if root % 3 == 0 { partials } else { vec![] }, root: if root < 6 { root } else { 0 } });
-        let hang = (hang_file(), proptest::option::of(json_file(".emmyrc.json")), any::<bool>()).prop_map(|(h, j, first)| {
+        // the companion file is a constant: should the hang ever come back, every shrink step costs a 30 s watchdog,
+        // so this class must have next to nothing to shrink
+        let companion = FileSpec { name: ".emmyrc.json".into(), body: Body::Text("{\"diagnostics.enable\":false}".into()), lua: None, src: "json".into() };
+        let hang = (hang_file(), proptest::option::of(Just(companion)), any::<bool>()).prop_map(|(h, j, first)| {
             let mut files = vec![h];
             if let Some(j) = j {
                 if first { files.insert(0, j) } else { files.push(j) }
@@ -493,13 +512,10 @@ impl Property for C31 {
     }
     fn check(&self, c: &Case, local: &mut Local, obs: &mut Obs) -> Verdict {
         let dir = local.dir.clone();
-        let _ = std::fs::remove_dir_all(&dir);
-        if std::fs::create_dir_all(&dir).is_err() {
+        if !dir.is_dir() && std::fs::create_dir_all(&dir).is_err() {
             return Verdict::Skip("cannot-create-workdir".into());
         }
-        let v = self.judge(c, &dir, obs);
-        let _ = std::fs::remove_dir_all(&dir);
-        v
+        self.judge(c, &dir, obs)
     }
 }
 
@@ -511,16 +527,24 @@ impl C31 {
         let mut parsed: Vec<Value> = vec![];
         let mut lua_unknown = false;
         for (i, f) in c.files.iter().enumerate() {
-            let sub = dir.join(format!("f{i}"));
-            let p = sub.join(&f.name);
-            if std::fs::create_dir_all(&sub).is_err() {
-                return Verdict::Skip("cannot-create-workdir".into());
-            }
+            // flat names in the per-process directory (the loader only looks at the extension); names are chosen so that
+            // nothing has to be deleted between cases: text files are overwritten, directories stay, missing files never exist
+            let p = match &f.body {
+                Body::Text(_) | Body::Bytes(_) => dir.join(format!("f{i}{}", f.name)),
+                Body::Missing => dir.join(format!("missing{i}{}", f.name)),
+                Body::Dir => dir.join(format!("dir{i}{}", f.name)),
+            };
             let io = match &f.body {
                 Body::Text(t) => std::fs::write(&p, t),
                 Body::Bytes(b) => std::fs::write(&p, b),
                 Body::Missing => Ok(()),
-                Body::Dir => std::fs::create_dir_all(&p),
+                Body::Dir => {
+                    if p.is_dir() {
+                        Ok(())
+                    } else {
+                        std::fs::create_dir_all(&p)
+                    }
+                }
             };
             if io.is_err() {
                 return Verdict::Skip("cannot-write-file".into());
@@ -616,7 +640,19 @@ impl C31 {
             Err(e) => return Verdict::fail("serialise", format!("loaded config does not serialise: {e}; files={}", describe(c))),
         };
         let mut processed = loaded.clone();
-        if let Err(m) = catch(|| processed.pre_process_emmyrc(&root)) {
+        // path expansion is costly (it compiles two regexes and spawns `luarocks` on every call): when the loaded
+        // configuration holds no path at all there is nothing to expand, so only every 8th such case runs it
+        let has_paths = !(loaded.workspace.workspace_roots.is_empty()
+            && loaded.workspace.library.is_empty()
+            && loaded.workspace.packages.is_empty()
+            && loaded.workspace.ignore_dir.is_empty()
+            && loaded.resource.paths.is_empty());
+        obs.class_if(has_paths, "loaded-config-has-paths");
+        let run_pp = has_paths || fnv64(before.to_string().as_bytes()).wrapping_add(c.files.len() as u64 + c.root as u64) % 8 == 0;
+        obs.class_if(run_pp, "pre-process-run");
+        if !run_pp {
+            // nothing to expand
+        } else if let Err(m) = catch(|| processed.pre_process_emmyrc(&root)) {
             return Verdict::fail(format!("panic:{}", site(&m)), format!("pre_process_emmyrc panicked: {}; files={}", m, describe(c)));
         }
         if let Err(e) = canon(&processed) {
@@ -654,9 +690,10 @@ impl C31 {
                 }
             }
             if let Some(sub) = differs {
+                let (path, _) = cfgmodel::first_diff(&before, &sub, "").unwrap_or(("?".into(), "scalar"));
                 return Verdict::fail(
                     "invalid-not-skipped",
-                    format!("loading all files differs from loading without the invalid ones: all={} subset={} files={}", one_line(&before.to_string(), 600), one_line(&sub.to_string(), 600), describe(c)),
+                    format!("loading all files differs from loading without the invalid ones at `{path}`: all={} without-invalid={} files={}", cfgmodel::at(&before, &path), cfgmodel::at(&sub, &path), describe(c)),
                 );
             }
             obs.class("skip-equality-judged");
